@@ -29,7 +29,8 @@ type c09Case struct {
 }
 
 // shape catalogue: body of type number self with targets b, c
-const c09Shapes = 14
+const c09Shapes = 15
+const c09RootKinds = 6
 
 func c09Shape(k int, self int, b, c string) (*model.Node, int) {
 	q := fmt.Sprintf("q%d", self)
@@ -60,8 +61,11 @@ func c09Shape(k int, self int, b, c string) (*model.Node, int) {
 		return model.Obj(model.P("p", model.Obj(model.P("n", model.Ref(b))))), 1
 	case 12:
 		return model.Obj(model.P("p", model.Obj(model.P("n", model.Ref(b))).With(model.RBool("optional", true)))), 1
-	default:
+	case 13:
 		return model.Obj(model.P("p", model.Ref(b)), model.P("a", model.Arr(model.Ref(c)))), 2
+	default:
+		// key shortcut whose VALUE references a type (@k is always part of the environment)
+		return model.Obj(model.PShort("@k", model.Ref(b))), 1
 	}
 }
 
@@ -112,11 +116,24 @@ func c09Build(n int, bodies []c09Body, rootKind int) *model.Schema {
 		root, _ := c09Shape(bodies[i].shape, i, bodies[i].b, bodies[i].c)
 		s.Types = append(s.Types, &model.TypeDef{Name: fmt.Sprintf("@t%d", i), Root: root})
 	}
+	s.Types = append(s.Types, &model.TypeDef{Name: "@k", Root: model.Str("kk").With(model.RStr("regex", "^k"))})
 	switch rootKind {
 	case 0:
 		s.Root = model.Ref("@t0")
 	case 1:
 		s.Root = model.Obj(model.P("r", model.Ref("@t0")))
+	case 4:
+		s.Root = model.Obj(model.PShort("@k", model.Ref("@t0")), model.P("z", model.Ref(fmt.Sprintf("@t%d", n-1))))
+	case 5:
+		s.Root = model.Obj(model.P("a", model.Ref("@t0")), model.P("b", model.Ref(fmt.Sprintf("@t%d", (n+1)/2))))
+		if n == 1 {
+			s.Root = model.Obj(model.P("a", model.Ref("@t0")), model.P("b", model.Ref("@t0")))
+		}
+	case 3:
+		s.Root = model.Obj(model.P("x", model.Ref("@t0", fmt.Sprintf("@t%d", n-1))))
+		if n == 1 {
+			s.Root = model.Obj(model.PShort("@k", model.Ref("@t0")))
+		}
 	default:
 		s.Root = model.Obj(model.P("r", model.Ref("@t0").With(model.RBool("optional", true))), model.P("s", model.Arr(model.Ref(fmt.Sprintf("@t%d", n-1)))))
 	}
@@ -192,10 +209,10 @@ func c09Run(c *mon.Ctx, unit int) {
 		for i := 0; i < nb; i++ {
 			for j := 0; j < nb; j++ {
 				if idx%e2 == unit {
-					for rk := 0; rk < 3; rk++ {
+					for rk := 0; rk < c09RootKinds; rk++ {
 						c09Judge(c, c09Build(2, []c09Body{bodies[i], bodies[j]}, rk), "exhaustive 2 types", idx == unit && rk == 1)
 					}
-					c.DistinctByConstruction(3)
+					c.DistinctByConstruction(c09RootKinds)
 				}
 				idx++
 			}
@@ -209,11 +226,11 @@ func c09Run(c *mon.Ctx, unit int) {
 		total := nb * nb * nb
 		stride := 1
 		if c.Tier != "thorough" {
-			stride = 37
+			stride = 17
 		}
 		for idx := u * stride; idx < total; idx += e3 * stride {
 			i, j, k := idx%nb, (idx/nb)%nb, idx/(nb*nb)
-			rk := idx % 3
+			rk := (idx / 3) % c09RootKinds
 			c09Judge(c, c09Build(3, []c09Body{bodies[i], bodies[j], bodies[k]}, rk), "3 types", idx == u*stride)
 			c.DistinctByConstruction(1)
 		}
@@ -236,12 +253,9 @@ func c09Run(c *mon.Ctx, unit int) {
 					}
 					bs = append(bs, b)
 				}
-				s = c09Build(nt, bs, r.Intn(3))
-				if r.Chance(1, 6) { // key shortcut + string type
-					s.Types = append(s.Types, &model.TypeDef{Name: "@k", Root: model.Str("kk").With(model.RStr("regex", "^k"))})
-					if s.Root.Kind == model.KObject {
-						s.Root.Props = append(s.Root.Props, model.PShort("@k", model.Int("1")))
-					}
+				s = c09Build(nt, bs, r.Intn(c09RootKinds))
+				if r.Chance(1, 6) && s.Root.Kind == model.KObject { // key shortcut next to the other keys
+					s.Root.Props = append(s.Root.Props, model.PShort("@k", model.Int("1")))
 				}
 			}
 			s.OptKeys = r.Chance(1, 8)
@@ -282,9 +296,20 @@ func c09TwoTypeWitness(c *mon.Ctx) {
 	}
 }
 
+// c09Judge runs one graph in both registration configurations: types added to the root only,
+// and every type added to every other type as well.
 func c09Judge(c *mon.Ctx, s *model.Schema, class string, sample bool) {
+	c09JudgeCfg(c, s, class, sample, false)
+	c09JudgeCfg(c, s, class+" (types added to every type)", false, true)
+}
+
+func c09JudgeCfg(c *mon.Ctx, s *model.Schema, class string, sample bool, fullReg bool) {
 	sp := specOf(s, model.Style{})
+	sp.FullReg = fullReg
 	want, why := model.RecursionVerdict(s)
+	if fullReg && why == model.KnownTwoTypeRecursion {
+		why = "root has no finite inhabitant along required references (every type sees every type)"
+	}
 	sch, bo := lib.Build(sp)
 	c.Eval(1)
 	c.Count("graphs: "+class, 1)
